@@ -55,6 +55,24 @@ def r123(chk):
     for st in fn.body:
         if isinstance(st, ast.Assign) and len(st.targets) == 1 and isinstance(st.targets[0], ast.Name):
             env[st.targets[0].id] = st.value
+    # role names, discovered from structure (not from the spelling of locals)
+    rets0 = [r for r in walk_local(fn) if isinstance(r, ast.Return)]
+    PV, CNT = "phantom_vrs", "phantoms"
+    if len(rets0) == 1 and isinstance(rets0[0].value, ast.Tuple) and len(rets0[0].value.elts) == 2:
+        first, second = rets0[0].value.elts
+        expr = first
+        if isinstance(first, ast.Name):
+            defs = [s for s in fn.body if isinstance(s, ast.Assign) and norm(s.targets[0]) == first.id]
+            if defs:
+                expr = defs[-1].value
+        if isinstance(expr, ast.BinOp) and isinstance(expr.op, ast.Add) and isinstance(expr.right, ast.Name):
+            PV = expr.right.id
+        if isinstance(second, ast.Name):
+            CNT = second.id
+    US = next((k for k, v in env.items() if isinstance(v, ast.Attribute) and v.attr == "use_style"), "use_style")
+    MC = next((k for k, v in env.items() if isinstance(v, ast.Attribute) and v.attr == "max_cards"), "max_cards")
+    STR = next((k for k, v in env.items() if norm(v) == "next(iter(audit.strata.values()))"), "stratum")
+    NC = next((k for k, v in env.items() if norm(v) == "len(cvr_list)"), "n_cvrs")
     # --- contest parameters
     loops = [l for l in fn.body if isinstance(l, ast.For)]
     set_loop = None
@@ -82,7 +100,7 @@ def r123(chk):
     ok_cards = False
     for t, v, s in stores(set_loop):
         if isinstance(t, ast.Attribute) and t.attr == "cards" and norm(t.value) == cv:
-            t1 = Tx(env={"max_cards": E(S("max_cards")), "use_style": E(S("use_style"))})
+            t1 = Tx(env={MC: E(S("max_cards")), US: E(S("use_style"))})
             got = symx.prune(t1.expr(v))
             want = symx.prune(Tx().expr(ast.parse(f"max_cards if ({cv}.cards is None or not use_style) else {cv}.cards", mode="eval").body))
             ok_cards = symx.equivalent(got, want)[0]
@@ -94,31 +112,31 @@ def r123(chk):
     if len(br) != 1:
         raise AnalysisError("make_phantoms: creation branch not found")
     br = br[0]
-    c_test = Tx(env={"use_style": E(S("use_style"))}).cond(br.test)
+    c_test = Tx(env={US: E(S("use_style"))}).cond(br.test)
     pos = aud.cond_equiv(c_test, ("atom", "truthy(use_style)"))[0]
     neg = aud.cond_equiv(c_test, symx.c_not(("atom", "truthy(use_style)")))[0]
     chk.ob("C08.R1", where, "branch-on-use_style", pos or neg, "the two accounting schemes are selected by the stratum's use_style",
            node=br, test=norm(br.test))
     style_body, plain_body = (br.body, br.orelse) if pos else (br.orelse, br.body)
-    us = env.get("use_style")
-    chk.ob("C08.R1", where, "use_style-from-stratum", us is not None and norm(us) == "stratum.use_style"
-           and "max_cards" in env and norm(env["max_cards"]) == "stratum.max_cards",
+    us = env.get(US)
+    chk.ob("C08.R1", where, "use_style-from-stratum", us is not None and norm(us) == f"{STR}.use_style"
+           and MC in env and norm(env[MC]) == f"{STR}.max_cards" and STR in env,
            "use_style and max_cards are read from the (single) stratum", node=fn, strength="N")
     # --- non-style: max_cards - len(cvr_list) records
-    t2 = Tx(env={k: E(S(k)) for k in ("max_cards", "cvr_list")})
-    if "n_cvrs" in env:
-        t2.env["n_cvrs"] = t2.expr(env["n_cvrs"])
+    t2 = Tx(env={MC: E(S("max_cards")), "cvr_list": E(S("cvr_list"))})
+    if NC in env:
+        t2.env[NC] = t2.expr(env[NC])
     ok = False
     detail = {}
     pl = [s for s in plain_body if isinstance(s, ast.For)]
-    cnt = [s for s in plain_body if isinstance(s, ast.Assign) and norm(s.targets[0]) == "phantoms"]
+    cnt = [s for s in plain_body if isinstance(s, ast.Assign) and norm(s.targets[0]) == CNT]
     if len(pl) == 1 and len(cnt) == 1:
         v = t2.expr(cnt[0].value)
         want = t2.expr(ast.parse("max_cards - len(cvr_list)", mode="eval").body)
         detail["count"] = norm(cnt[0].value)
         l = pl[0]
-        apps = [c for c in walk_local(l) if isinstance(c, ast.Call) and norm(c.func) == "phantom_vrs.append"]
-        ok = symx.equivalent(v, want)[0] and norm(l.iter) == "range(phantoms)" and len(apps) == 1 \
+        apps = [c for c in walk_local(l) if isinstance(c, ast.Call) and norm(c.func) == f"{PV}.append"]
+        ok = symx.equivalent(v, want)[0] and norm(l.iter) == f"range({CNT})" and len(apps) == 1 \
             and parent(parent(apps[0])) is l and not [n for n in walk_local(l) if isinstance(n, (ast.Break, ast.Continue))]
     chk.ob("C08.R1", where, "stratum-accounting", ok,
            "without style information exactly max_cards - len(cvr_list) phantom records are created (one per iteration)",
@@ -149,20 +167,20 @@ def r123(chk):
             if len(whiles) == 1:
                 w = whiles[0]
                 cw = Tx().cond(w.test)
-                wantw = Tx().cond(ast.parse(f"len(phantom_vrs) < {nn}", mode="eval").body)
-                apps = [c for c in walk_local(w) if isinstance(c, ast.Call) and norm(c.func) == "phantom_vrs.append"]
+                wantw = Tx().cond(ast.parse(f"len({PV}) < {nn}", mode="eval").body)
+                apps = [c for c in walk_local(w) if isinstance(c, ast.Call) and norm(c.func) == f"{PV}.append"]
                 ok_while = aud.cond_equiv(cw, wantw)[0] and len(apps) == 1 and len(w.body) == 1 and not w.orelse
                 detail["while"] = norm(w.test)
             if len(fors) == 1:
                 f = fors[0]
                 iv = norm(f.target)
                 sts = [(t, v, s) for t, v, s in stores(f)]
-                ok_list = norm(f.iter) == f"range({nn})" and len(sts) == 1 and norm(sts[0][0]) == f"phantom_vrs[{iv}].votes[{cv2}.id]" \
+                ok_list = norm(f.iter) == f"range({nn})" and len(sts) == 1 and norm(sts[0][0]) == f"{PV}[{iv}].votes[{cv2}.id]" \
                     and isinstance(sts[0][1], ast.Dict) and not sts[0][1].keys and len(f.body) == 1 \
                     and (not whiles or f.lineno > whiles[0].lineno)
                 detail["listing"] = norm(sts[0][2]) if sts else None
-        tot = [s for s in style_body if isinstance(s, ast.Assign) and norm(s.targets[0]) == "phantoms"]
-        ok_total = len(tot) == 1 and norm(tot[0].value) == "len(phantom_vrs)" and tot[0].lineno > l.end_lineno
+        tot = [s for s in style_body if isinstance(s, ast.Assign) and norm(s.targets[0]) == CNT]
+        ok_total = len(tot) == 1 and norm(tot[0].value) == f"len({PV})" and tot[0].lineno > l.end_lineno
     chk.ob("C08.R1", where, "needed=cards-cvrs", ok_need, "for every contest, phantoms_needed = con.cards - con.cvrs", node=sl[0] if sl else br, **detail)
     chk.ob("C08.R1", where, "create-until-enough", ok_while,
            "records are created exactly while fewer than phantoms_needed exist (so the number created is the largest shortfall)",
@@ -172,7 +190,7 @@ def r123(chk):
            node=sl[0] if sl else br)
     chk.ob("C08.R1", where, "count-returned", ok_total, "the reported number of phantoms is the number of records created", node=br)
     # the phantom list starts empty
-    pv = env.get("phantom_vrs")
+    pv = env.get(PV)
     chk.ob("C08.R1", where, "starts-empty", pv is not None and isinstance(pv, ast.List) and not pv.elts,
            "the phantom list starts empty", node=fn)
     # --- R2 originals first and untouched
@@ -186,7 +204,7 @@ def r123(chk):
             defs = [s for s in fn.body if isinstance(s, ast.Assign) and norm(s.targets[0]) == first.id]
             if defs:
                 txt = norm(defs[-1].value)
-        ok = txt == "cvr_list+phantom_vrs" and norm(rets[0].value.elts[1]) == "phantoms"
+        ok = txt == f"cvr_list+{PV}" and norm(rets[0].value.elts[1]) == CNT
     chk.ob("C08.R2", where, "originals-first", ok, "the result is the original records followed by the phantom records, and the count",
            node=rets[0] if rets else fn)
     muts = []
@@ -220,7 +238,7 @@ def r123(chk):
             loop = next((a for a in ancestors(c) if isinstance(a, (ast.For, ast.While))), None)
             if isinstance(loop, ast.For) and norm(loop.iter).startswith("range(") and cnt in (f"{norm(loop.target)}+1", f"1+{norm(loop.target)}", norm(loop.target)):
                 uniq = True
-            if cnt in ("len(phantom_vrs)+1", "1+len(phantom_vrs)", "len(phantom_vrs)"):
+            if cnt in (f"len({PV})+1", f"1+len({PV})", f"len({PV})"):
                 uniq = True
         chk.ob("C08.R3", where, f"phantom-ctor@{k}", ph and fresh and uniq,
                "a phantom record is constructed with phantom=True, an explicit fresh empty vote dict, and id = prefix + a strictly "
@@ -273,6 +291,33 @@ def r4(chk):
            node=ba, derivative=sp.sstr(sp.simplify(dB)))
 
 
+def _phantom_appends(node):
+    """calls X.append(CVR(..., phantom=True))"""
+    out = []
+    for c in ast.walk(node):
+        if isinstance(c, ast.Call) and isinstance(c.func, ast.Attribute) and c.func.attr == "append" and len(c.args) == 1 \
+                and isinstance(c.args[0], ast.Call) and norm(c.args[0].func) == "CVR":
+            out.append(c)
+    return out
+
+
+def _resolves_to(expr, scope, targets):
+    """does the expression (a Name is followed through its local definitions in scope) equal one of the target texts?"""
+    seen = set()
+    cur = expr
+    while True:
+        t = norm(cur)
+        if t in targets:
+            return True
+        if isinstance(cur, ast.Name) and cur.id not in seen:
+            seen.add(cur.id)
+            defs = [s for s in walk_local(scope) if isinstance(s, ast.Assign) and len(s.targets) == 1 and norm(s.targets[0]) == cur.id]
+            if len(defs) == 1:
+                cur = defs[0].value
+                continue
+        return False
+
+
 def r5(chk):
     # sample_from_cvrs: every sampled phantom card gets a phantom MVR with the same id
     for rel, q in ((DOM, "Dominion.sample_from_cvrs"), (HART, "Hart.sample_from_cvrs")):
@@ -296,8 +341,7 @@ def r5(chk):
                         is_ph = e[2]
                     elif t in tuple("not" + x for x in ph_texts):
                         is_ph = not e[2]
-            apps = [s for s in (e[1] for e in p.events if e[0] == "stmt") if isinstance(s, ast.Expr) and isinstance(s.value, ast.Call)
-                    and norm(s.value.func) == "mvr_phantoms.append"]
+            apps = [s for s in (e[1] for e in p.events if e[0] == "stmt") if isinstance(s, ast.Expr) and s.value in _phantom_appends(s)]
             if is_ph:
                 n_ph += 1
                 good = False
@@ -305,7 +349,8 @@ def r5(chk):
                     c = a.value.args[0]
                     if isinstance(c, ast.Call) and norm(c.func) == "CVR":
                         kw = {x.arg: norm(x.value) for x in c.keywords}
-                        if kw.get("phantom") == "True" and kw.get("id") in ("cvr_id", f"cvr_list[{sv}].id") and kw.get("votes") == "{}":
+                        idn = next((x.value for x in c.keywords if x.arg == "id"), None)
+                        if kw.get("phantom") == "True" and idn is not None and _resolves_to(idn, l, (f"cvr_list[{sv}].id",)) and kw.get("votes") == "{}":
                             good = True
                 if len(apps) != 1 or not good:
                     ok = False
@@ -313,8 +358,11 @@ def r5(chk):
             elif is_ph is False and apps:
                 ok = False
                 bad.append("non-phantom path creates a phantom MVR")
-        idd = [s for s in l.body if isinstance(s, ast.Assign) and norm(s.targets[0]) == "cvr_id"]
-        ok = ok and n_ph >= 1 and (not idd or norm(idd[0].value) == f"cvr_list[{sv}].id")
+        # the MVR list must be returned
+        recv = {norm(c.func.value) for c in _phantom_appends(l)}
+        rets = [r for r in walk_local(fn) if isinstance(r, ast.Return) and isinstance(r.value, ast.Tuple)]
+        returned = {norm(e) for r in rets for e in r.value.elts}
+        ok = ok and n_ph >= 1 and len(recv) == 1 and recv <= returned
         chk.ob("C08.R5", f"{rel}:{q}", "phantom-mvr-for-phantom-card", ok,
                "on every path where the sampled CVR is a phantom, exactly one MVR with the same id, phantom=True and empty votes is "
                "appended; on no other path", node=l, strength="N", phantom_paths=n_ph, problems=bad)
@@ -334,7 +382,7 @@ def r5(chk):
                 side = [st.test.left, st.test.comparators[0]]
                 consts = [x for x in side if isinstance(x, ast.Constant) and isinstance(x.value, str)]
                 names = [x for x in side if isinstance(x, ast.Name)]
-                apps = [c for c in ast.walk(st) if isinstance(c, ast.Call) and norm(c.func) == "mvr_phantoms.append"]
+                apps = _phantom_appends(st)
                 if consts and names and apps:
                     read_const = consts[0].value
                     var = names[0].id
@@ -344,7 +392,11 @@ def r5(chk):
                     c = apps[0].args[0]
                     if isinstance(c, ast.Call) and norm(c.func) == "CVR":
                         kw = {x.arg: norm(x.value) for x in c.keywords}
-                        mvr_ok = kw.get("phantom") == "True" and kw.get("id") == "card_id" and kw.get("votes") == "{}" and not st.orelse
+                        idn = next((x.value for x in c.keywords if x.arg == "id"), None)
+                        # the id is the card identifier built for this sample number (an f-string over the located batch)
+                        id_ok = isinstance(idn, ast.Name) and any(isinstance(s2, ast.Assign) and norm(s2.targets[0]) == idn.id and isinstance(s2.value, ast.JoinedStr)
+                                                                  for s2 in walk_local(r))
+                        mvr_ok = kw.get("phantom") == "True" and id_ok and kw.get("votes") == "{}" and not st.orelse
         ok = written is not None and written == read_const and read_col == col and mvr_ok
         chk.ob("C08.R5", f"{rel}:{cls}.sample_from_manifest", "phantom-batch-label-agrees", ok,
                "the lookup creates a phantom MVR exactly when the row's tabulator column equals the constant that prep_manifest writes "
